@@ -137,14 +137,13 @@ func isStaleErrorAllowed(code int) bool {
 // splitHostPort separates host and port. If the port is not valid, it returns
 // the entire input as host, and it doesn't check the validity of the host.
 // Unlike net.SplitHostPort, but per RFC 3986, it requires ports to be numeric.
+// The brackets of an IP literal are kept: they are what separates the literal
+// from the port ("[::1]:8080" and "[::1:8080]" are different hosts).
 func splitHostPort(hostPort string) (host, port string) {
 	host = hostPort
 	colon := strings.LastIndexByte(host, ':')
 	if colon != -1 && validOptionalPort(host[colon:]) {
 		host, port = host[:colon], host[colon+1:]
-	}
-	if strings.HasPrefix(host, "[") && strings.HasSuffix(host, "]") {
-		host = host[1 : len(host)-1]
 	}
 	return
 }
